@@ -29,6 +29,11 @@ class Unsupported(Exception):
     """A construct outside the modelled subset: the function becomes *undecided*, never violated."""
 
 
+class StaleContract(Unsupported):
+    """The sidecar contract no longer binds to the code it was written for (a loop ordinal, loop header, cut statement or local name it
+    refers to is gone): the function is not under contract in this run.  Reported, recorded as unverified, never a violation."""
+
+
 class Sym:
     __slots__ = ('t', 'ty')
 
